@@ -248,6 +248,9 @@ VERUS = {
     'set': dict(props=['C07', 'C11'], tier='quick',
                 desc='HashSet set algebra on extracted text over an abstract view (the mathematical set of elements plus the duplicate-free order in which the iterator yields them; contains / len as specified by C01): Intersection::next and Difference::next (the next element of the driving set that is / is not in the other set, everything skipped is not / is), the constructors difference, intersection (whichever set is smaller drives: exactly A n B), union (one set in full, then the rest of the other: exactly A u B, nothing twice), symmetric_difference (exactly the elements in one set only, nothing twice), and is_subset / is_superset / is_disjoint equal the mathematical predicates, including the length pre-check of is_subset (cardinality lemma); HashSet::eq is equality of the element sets and HashMap::eq holds exactly when both maps have the same keys with values that compare equal (for a value type whose == meets its specification), whatever the layout, capacity, history or hasher',
                 paired={}),
+    'assoc': dict(props=['C01', 'C06'], tier='quick',
+                  desc='lemma-only unit over the contracts of units ctrl / rehash / resize: what rehash_in_place and resize_inner establish (every FULL bucket placed) is the reachability invariant F2 that insert and erase are proved to preserve; and lookup BY KEY: for a lawful Eq (the closure accepts exactly the buckets holding an element with key k) and a lawful Hash (such elements were stored under the probed hash), find_inner answers Some exactly when an element with key k is stored, and the bucket it returns holds one',
+                  paired={}),
     'serde': dict(props=['C20'], tier='quick',
                   desc='the serde visitors on extracted text (MapVisitor::visit_map, SeqVisitor::visit_seq, the in-place SeqInPlaceVisitor::visit_seq, size_hint::cautious) over an ARBITRARY input: any sequence of entries that ends or fails at some position, with an arbitrary (lying) size hint: the pre-allocation request never exceeds 4096 whatever the hint claims (obligation of with_capacity / reserve), every entry is inserted in order (a repeated key keeps its last value), the in-place form first empties the target, an input error is passed on and nothing else produces one; the loops terminate',
                   paired={}),
